@@ -3,6 +3,9 @@
 import json, os
 V = os.path.dirname(os.path.abspath(__file__))
 CLAIMED = {
+ "C01": dict(text="Chain of solver-decided links on the real code: tangents (C02-A, re-run), truth solves the captured system, and -- using the back-ends' KKT / inverse contracts plus the uniqueness hypothesis instantiated at (reported - truth) -- the reported values equal E*T/sum(T) for every equilibrium configuration of the catalogue tissues; the KKT zero-residual step is itself proved by z3 through a lemma chain.",
+             note="Back-ends trusted to return a KKT point / exact inverse; uniqueness of the augmented problem assumed (slightly stronger than the property's hypothesis: the check claims less); T3, K3-n0, K3 regular-inverse (K3 singular branch, K4 thorough); resampling leg is C11's obligation.",
+             ref="3/C01"),
  "C02": dict(text="Bounded symbolic execution of the real tangent code on arcs with symbolic points (closed-form tangent oracle) and of the real matrix assembly on catalogue tissues with one symbolic unit tangent per (interface, junction); every coefficient, row and column obligation is an SMT query over all values, with the known defect regions split off by the solver.",
              note="Floats as reals; circle-fit libraries stubbed by the circumcentre contract (the repo's objective is checked to vanish there); 2..5 (9 thorough) points per interface; catalogue topologies only; counterexamples of the tissue-level obligations are replayed with the tangent stub retained.",
              ref="3/C02"),
